@@ -12,7 +12,8 @@ import (
 	"verif/sim/tape"
 )
 
-const modelBudget = 25000
+// reference budget in nodes (quick / thorough tier)
+func modelBudget() int { return core.Scale(25000, 150000) }
 
 func drawCfg(t *tape.Tape, p *rules.Pos) searchCfg {
 	c := searchCfg{}
@@ -41,7 +42,7 @@ func drawCfg(t *tape.Tape, p *rules.Pos) searchCfg {
 		if br < 1.5 {
 			br = 1.5
 		}
-		if est*br > 5000 {
+		if est*br > float64(core.Scale(5000, 30000)) {
 			break
 		}
 		est *= br
@@ -117,7 +118,7 @@ func checkC03(res *core.RunResult, gs *gameSetup, cfg searchCfg, step int) bool 
 	legal := cur.LegalMoves()
 	rootDrawn := gs.g.EverDrawn() || gs.b.Result().Outcome == board.Draw
 	// reference first (budgeted); an over-budget reference means the operation is skipped and counted
-	ms, root := cfg.model(gs.g, modelBudget)
+	ms, root := cfg.model(gs.g, modelBudget())
 	val, opt, per := root(cfg.depth)
 	if ms.Over {
 		res.Inconclusive["model-over-budget"]++
